@@ -146,6 +146,19 @@ def c03_case(ctx: Ctx, case: dict):
             pass
 
 
+def c03_extra(ctx: Ctx):
+    """small models whose conditions nest And / Or / Not in both directions and use intervals"""
+    rng = ctx.rng
+    names = ["x", "y", "z"]
+    conds = [gen.idiom_cond(rng, names, gen.ExprCfg()) for _ in range(3)]
+    e = [sexp.render(("cond", c, gen.gen_expr(rng, names + ["a"], 1), gen.gen_expr(rng, names + ["a"], 1))) for c in conds]
+    text = (f"states(x=0.5, y=-0.25, z=1.5)\nparameters(a=0.75)\ni1 = {e[0]}\ndx_dt = i1 - x\ndy_dt = {e[1]} - a*y\ndz_dt = {e[2]}\n")
+    pts = []
+    for _ in range(6):
+        pts.append({"x": rng.uniform(-3, 3), "y": rng.uniform(-3, 3), "z": rng.uniform(-3, 3), "a": rng.uniform(-2, 2), "t": 0.5, "dt": 0.01})
+    return {"text": text, "points": pts}
+
+
 def big_cfg(ctx, k):
     cfg = gen.ModelCfg()
     if k % 4 == 0:
@@ -153,7 +166,7 @@ def big_cfg(ctx, k):
         cfg.max_inters = 8
         cfg.depth = 1
         cfg.min_states = 11
-    cfg.expr = gen.ExprCfg(p_floor=0.0, p_mod=0.01)
+    cfg.expr = gen.ExprCfg(p_floor=0.0, p_mod=0.01, p_cond=0.25, p_logic=0.7, p_idiom=0.25)
     return cfg
 
 
@@ -496,6 +509,6 @@ def c14_case(ctx: Ctx, case: dict):
 
 def c14_cfg(ctx, k):
     cfg = gen.ModelCfg(depth=3)
-    cfg.expr = gen.ExprCfg(p_cond=0.2, p_ccond=0.05, p_mod=0.06, p_floor=0.05, p_logic=0.6,
+    cfg.expr = gen.ExprCfg(p_cond=0.2, p_ccond=0.05, p_mod=0.06, p_floor=0.05, p_logic=0.6, p_idiom=0.25,
                            funcs=("exp", "log", "sqrt", "sin", "cos", "abs", "abs", "abs", "atan"))
     return cfg
